@@ -622,9 +622,11 @@ the abstraction function.  `int` is the unbounded `Int` of the translation; `len
 through the 64-bit two's complement `GoSem.intAnd`, and the ties hold for EVERY length (no
 `len < 2^63` hypothesis: the mask keeps the low 4 bits).
 
-NOT translated (translator frozen; reasons in `tools/trans_targets.json` / the builder's report):
-`PKCS7Padding`, `PKCS7UnPadding` (`return nil, err` with a nil SLICE; `bytes.Repeat`,
-`bytes.Equal` have no GoSem semantics) — their tie stays the sampled correspondence + drift hash. -/
+NOT translated (translator frozen; the generated file would hold `<f>_untranslatable`):
+`PKCS7Padding`, `PKCS7UnPadding` (`return nil, err` with a nil SLICE is outside the subset;
+`bytes.Repeat`, `bytes.Equal` have no GoSem semantics) — their tie stays the sampled
+correspondence + drift hash.  The private `pkcs7UnPadding` IS translated, with its one
+`bytes.Equal(table entry, tail)` test as an extern `Bool` (below). -/
 
 /-- TIE: `AESCBCEncryptLen` = the model's `cbcEncryptLen` of the length, never panics. -/
 theorem c08_trans_AESCBCEncryptLen (plainText : List (BitVec 8)) :
@@ -669,6 +671,56 @@ example :
     Golib.Gen.Trans.C08.AESCBCDecryptLen [1#8, 2#8] = .ok 2 ∧
     Golib.Gen.Trans.C08.AESGCMEncryptLen [1#8, 2#8] = .ok 18 ∧
     Golib.Gen.Trans.C08.AESGCMDecryptLen [1#8, 2#8, 3#8] = .ok (-13) := by
+  refine ⟨?_, ?_, ?_, ?_, ?_, ?_⟩ <;> decide +kernel
+
+/-- TIE (private, table-based `pkcs7UnPadding` used by `AESCBCDecrypt`): the regenerated
+function — reading the last byte (PANIC on empty input, on both sides), the range test
+`paddingLen > 16 || paddingLen <= 0`, the two error classes, the returned `len - paddingLen` —
+equals the model's `pkcs7UnPadding` on `absBytes data`, seen through `embedUnpad`
+(`.ok n ↦ (n, nil)`, `.err c ↦ (0, errors.New(<text of class c>))`, `.panic ↦ panic`).
+
+The ONE expression not regenerated is `bytes.Equal(prePadPatterns[paddingLen], data[len(data)-paddingLen:])`:
+it is the extern parameter `eq`, and the hypotheses say what it stands for — `heq`: for a last
+byte `p ∈ 1..16`, `eq` = "table entry `p` equals the last `p` bytes" (`padEq`, model terms);
+`hnp`: evaluating that expression does not panic (`p ≤ len(data)`; the model panics there, the
+generated definition cannot see a panic inside an extern).  Both hold in every call from
+`AESCBCDecrypt` (its input has ≥ 16 bytes). -/
+theorem c08_trans_pkcs7UnPadding (data : List (BitVec 8)) (eq : Bool)
+    (hnp : ∀ b, data.getLast? = some b → 1 ≤ b.toNat → b.toNat ≤ 16 → b.toNat ≤ data.length)
+    (heq : ∀ b, data.getLast? = some b → 1 ≤ b.toNat → b.toNat ≤ 16 →
+      eq = padEq (absBytes data) b.toNat) :
+    Golib.Gen.Trans.C08.pkcs7UnPadding data eq = embedUnpad (pkcs7UnPadding (absBytes data)) :=
+  trans_pkcs7UnPadding data eq hnp heq
+
+/-- the property clause on the regenerated definition: whatever the comparison says, a last
+byte outside `1..16` is rejected with the padding-length error and NO input makes the
+function report a length outside `0 ≤ n < len(data)` without an error … for inputs of at
+least 16 bytes (the only ones `AESCBCDecrypt` passes). -/
+theorem c08_trans_pkcs7UnPadding_range (data : List (BitVec 8)) (eq : Bool) (n : Int)
+    (hlen : 16 ≤ data.length)
+    (h : Golib.Gen.Trans.C08.pkcs7UnPadding data eq = .ok (n, GoSem.Err.nil)) :
+    0 ≤ n ∧ n < data.length ∧ (data.length : Int) - n ≤ 16 :=
+  trans_pkcs7UnPadding_range data eq n hlen h
+
+/-- Non-vacuity: `A 02 02` un-pads to length 1 (the hypotheses of the tie hold with
+`eq = padEq … = true`); a wrong tail gives the padding-bytes error; last byte 17 and 0 give the
+padding-length error whatever `eq` is; the empty input panics. -/
+example :
+    padEq (absBytes [0x41#8, 2#8, 2#8]) 2 = true ∧
+    Golib.Gen.Trans.C08.pkcs7UnPadding [0x41#8, 2#8, 2#8] true = .ok (1, GoSem.Err.nil) ∧
+    embedUnpad (pkcs7UnPadding (absBytes [0x41#8, 2#8, 2#8])) = .ok (1, GoSem.Err.nil) := by
+  refine ⟨?_, ?_, ?_⟩ <;> decide +kernel
+
+example :
+    padEq (absBytes [0x41#8, 3#8, 2#8]) 2 = false ∧
+    Golib.Gen.Trans.C08.pkcs7UnPadding [0x41#8, 3#8, 2#8] false
+      = .ok (0, GoSem.Err.mk "invalid padding bytes" []) ∧
+    Golib.Gen.Trans.C08.pkcs7UnPadding [0x41#8, 17#8] true
+      = .ok (0, GoSem.Err.mk "invalid padding length" []) ∧
+    Golib.Gen.Trans.C08.pkcs7UnPadding [0x41#8, 0#8] true
+      = .ok (0, GoSem.Err.mk "invalid padding length" []) ∧
+    Golib.Gen.Trans.C08.pkcs7UnPadding [] true = .panic ∧
+    embedUnpad (pkcs7UnPadding (absBytes [])) = .panic := by
   refine ⟨?_, ?_, ?_, ?_, ?_, ?_⟩ <;> decide +kernel
 
 end Golib.C08
